@@ -4,7 +4,7 @@
 wt=${1:-/tmp/regress_repo}
 git -C /repo worktree add -q --detach "$wt" HEAD 2>/dev/null
 out=/tmp/seed_regression.log; : > $out
-for d in /verif/seeded/*/; do
+for d in /verif/seeded/C*/; do
   name=$(basename $d); prop=$(/venv/bin/python -c "import json;print(json.load(open('$d/meta.json'))['property'])")
   echo "##### $name" >> $out
   SEED_REPO=$wt timeout 2400 /venv/bin/python /verif/tools/try_seed.py $d $prop 2>&1 | tail -n 4 | cut -c1-250 >> $out
